@@ -12,7 +12,7 @@ RULE = ("seeded scenarios (all objective families, N=1..5, boxes of every kind, 
         "trial count, number of moments).")
 ASSUMPTIONS = ["evaluated at quiescent points of the global phase; after Solve only when refineSolution=False (refinement deliberately rewrites the optimum in place)",
                "interval lengths compared within 4 ulp of libm pow", "stored point compared bitwise with a fresh Evolvent of the same bounds and density"]
-SIZES = {"quick": 320, "thorough": 6000}
+SIZES = {"quick": 320, "thorough": 18000}
 CASE_TIMEOUT = 400
 
 _insert_stats = {"calls": 0, "bad": []}
@@ -79,7 +79,7 @@ def cases(tier, seed):
                     "pattern": [["iter", 1]] * 40 + [["iter", 10]] * 26})
     # a transient objective failure (one-shot, at evaluation k = 1, 2 or later) followed by a retry / continuation on the same Solver:
     # the record must list exactly the completed trials at every later step
-    for i in range(60 if tier == "quick" else 600):
+    for i in range(60 if tier == "quick" else 3000):
         rng = scenario.rng_for(seed, "C06f", i)
         scn = scenario.gen_scenario(rng, max_iters=80, refine=False)
         scn["iters"] = int(rng.integers(10, 80))
